@@ -301,6 +301,10 @@ fn server_case(out: &mut Out, src: &str, plugin: bool, stream: &str) -> bool {
         Ok(Ok(d)) => d,
         _ => { out.bump(&format!("{stream}:source-rejected")); return false; }
     };
+    // "valid schema model": the schema check and the plugin's own check accept it
+    let invalid = !nitrogql_checker::check_type_system_document(&doc).is_empty()
+        || (plugin && !(ModelPlugin {}).check_schema(&doc).errors.is_empty());
+    if invalid { out.bump(&format!("{stream}:schema-rejected-by-check")); return false; }
     let mut stripped = cli_builtins::remove_builtins(&doc);
     if plugin {
         if let Some(next) = (ModelPlugin {}).transform_document_for_runtime_server(&stripped) { stripped = next; }
@@ -374,9 +378,9 @@ impl<'a> Syn<'a> {
     /// a string value; multi-line values only where the caller says the literal is printed at indent 0
     fn string(&mut self, multi_ok: bool) -> String {
         let v: &str = match self.mode {
-            Mode::Plain => if multi_ok && self.rng.chance(1, 3) { self.rng.pick(PLAIN_MULTI) } else { self.rng.pick(PLAIN_STRS) },
+            Mode::Plain => if multi_ok && self.rng.chance(1, 3) { *self.rng.pick(PLAIN_MULTI) } else { *self.rng.pick(PLAIN_STRS) },
             Mode::Adversarial => match self.rng.below(6) {
-                0 => self.rng.pick(PLAIN_STRS), 1 => self.rng.pick(PLAIN_MULTI), 2 | 3 => self.rng.pick(ADV_STRS), _ => self.rng.pick(ADV_MULTI),
+                0 => *self.rng.pick(PLAIN_STRS), 1 => *self.rng.pick(PLAIN_MULTI), 2 | 3 => *self.rng.pick(ADV_STRS), _ => *self.rng.pick(ADV_MULTI),
             },
         };
         lit(v, self.rng)
